@@ -88,6 +88,10 @@ def build(clsname, topo, rname, wname, ctx, second_reader=None, pre_session=Fals
     if second_reader:
         threads.append(inst(reads[second_reader], rmap))
         names.append(second_reader)
+    if second_reader:
+        topo_label = topo + ":two-readers-one-object"  # the second reader uses the FIRST reader's object
+    else:
+        topo_label = topo
     if missing or fresh:
         prefix = ()
     cfg = seq.Config(clsname, initial=(env.ABSENT if missing else INIT[k],), objects=objects, prefix=prefix, label=clsname)
@@ -100,7 +104,7 @@ def build(clsname, topo, rname, wname, ctx, second_reader=None, pre_session=Fals
                 "pre_ctx": (("enter_cls", None),) + tuple(("op", o, "len", ()) for o in range(len(objects))) + (("exit_cls",),)}
     return {"label": "%s/%s/%s/%s" % (clsname, topo, "ctx" if ctx else "noctx", "||".join(names)), "cfg": cfg,
             "ctx": ctx, "threads": threads, "pair": "r:%s||w:%s" % (rname, wname) + ("||r:" + second_reader if second_reader else ""),
-            "topology": topo, "property": PROPERTY, "module": __name__,
+            "topology": topo_label, "property": PROPERTY, "module": __name__,
             # after the threads have finished every object must show the final content (a reader that cached what it saw
             # during the race would not); same-object programs are dominated by the open finding D17 anyway
             "final_views": topo != "same-object"}
